@@ -73,6 +73,12 @@ impl PutQuery {
             }
         }
 
+        if self.inflight_requests.is_empty() {
+            // None of the nodes gave us a write token, nothing was sent,
+            // and this query would never be done.
+            Err(PutQueryError::NoClosestNodes)?;
+        }
+
         Ok(())
     }
 
